@@ -504,4 +504,15 @@ func init() {
 		Variant{Name: "benign: replay watermark recorded through a helper-free early continue", Property: "C01", File: pst, Benign: true,
 			Old: "\t\t\t\tr.lastWatermarkMu.Lock()\n\t\t\t\tr.lastWatermark = &replicationv1.WorkflowReplicationMessages{\n\t\t\t\t\tExclusiveHighWatermark: attr.Messages.ExclusiveHighWatermark,\n\t\t\t\t\tPriority:               attr.Messages.Priority,\n\t\t\t\t}\n\t\t\t\tr.lastWatermarkMu.Unlock()\n", New: "\t\t\t\twm := &replicationv1.WorkflowReplicationMessages{\n\t\t\t\t\tExclusiveHighWatermark: attr.Messages.ExclusiveHighWatermark,\n\t\t\t\t\tPriority:               attr.Messages.Priority,\n\t\t\t\t}\n\t\t\t\tr.lastWatermarkMu.Lock()\n\t\t\t\tr.lastWatermark = wm\n\t\t\t\tr.lastWatermarkMu.Unlock()\n"},
 	)
+	// ---- F13 and the rule that decides it
+	addVariants(
+		Variant{Name: "targets handed tasks are not entered into ackByTarget = F13", Property: "C01", File: pst,
+			Old: "\t\t\t\tif _, reported := r.ackByTarget[targetShardID]; !reported {\n\t\t\t\t\tr.ackByTarget[targetShardID] = tasks[0].SourceTaskId\n\t\t\t\t}\n", New: "\t\t\t\t_ = tasks\n\t\t\t\t_ = targetShardID\n", Expect: "O1.8"},
+		Variant{Name: "initial entry overwrites what the target really confirmed", Property: "C01", File: pst,
+			Old: "\t\t\t\tif _, reported := r.ackByTarget[targetShardID]; !reported {\n\t\t\t\t\tr.ackByTarget[targetShardID] = tasks[0].SourceTaskId\n\t\t\t\t}\n", New: "\t\t\t\tr.ackByTarget[targetShardID] = tasks[0].SourceTaskId\n", Expect: "O1.8", Contains: "only when absent"},
+		Variant{Name: "initial entry is the last task id of the batch", Property: "C01", File: pst,
+			Old: "\t\t\t\t\tr.ackByTarget[targetShardID] = tasks[0].SourceTaskId\n", New: "\t\t\t\t\tr.ackByTarget[targetShardID] = tasks[len(tasks)-1].SourceTaskId\n", Expect: "O1.8", Contains: "first task"},
+		Variant{Name: "benign: entry ensured with a named local", Property: "C01", File: pst, Benign: true,
+			Old: "\t\t\t\tif _, reported := r.ackByTarget[targetShardID]; !reported {\n\t\t\t\t\tr.ackByTarget[targetShardID] = tasks[0].SourceTaskId\n\t\t\t\t}\n", New: "\t\t\t\t_, known := r.ackByTarget[targetShardID]\n\t\t\t\tif known {\n\t\t\t\t\tcontinue\n\t\t\t\t}\n\t\t\t\tr.ackByTarget[targetShardID] = tasks[0].SourceTaskId\n"},
+	)
 }
